@@ -168,6 +168,29 @@ func alStreamEvent(pk *alPkg, up bool, items []M) M {
 	return ev
 }
 
+func alDecodeEvent(pk *alPkg, up bool, items []M, b []byte) M {
+	dir := "down"
+	if up {
+		dir = "up"
+	}
+	ev := M{"ev": "aldec", "pkg": pk.name, "dir": dir, "cmds": items, "bytes": bs(b)}
+	in := append([]byte{}, b...)
+	var back []alCmd
+	res, _ := observeFast(func() error {
+		var err error
+		back, err = pk.unmarshal(up, in)
+		return err
+	})
+	ev["derr"] = res
+	ev["intact"] = string(in) == string(b)
+	outs := []interface{}{}
+	for _, cm := range back {
+		outs = append(outs, alCmdVal(cm))
+	}
+	ev["back"] = outs
+	return ev
+}
+
 func (c *ctx) genALItem(pk *alPkg, up bool, cid int) M {
 	p := pk.newPayload(up, cid)
 	return M{"cid": cid, "haspl": !nilIface(p), "val": emptyAsList(c.genALVal(p))}
@@ -217,7 +240,19 @@ func drvAppLayer(c *ctx) error {
 				m := it.(M)
 				items = append(items, M{"cid": num(m["cid"]), "haspl": m["haspl"].(bool), "val": m["val"]})
 			}
-			c.emit(alStreamEvent(pk, cs["dir"].(string) == "up", items))
+			up := cs["dir"].(string) == "up"
+			constructible := true
+			for _, it := range items {
+				if vm, ok := it["val"].(M); ok && pk.name == "firmwaremanagement" && up && it["cid"].(int) == 4 && num(vm["UpImageStatus"]) == 3 {
+					constructible = false // nextFirmwareVersion is unexported: such a value exists only as decoded bytes
+				}
+			}
+			if constructible {
+				c.emit(alStreamEvent(pk, up, items))
+			}
+			if b, ok := cs["bytes"]; ok { // decode direction: the specification's bytes of the sequence
+				c.emit(alDecodeEvent(pk, up, items, unbs(b)))
+			}
 		}
 	case "streams": // sequences of 1..6 commands; a DataFragment (implicit length) only as last command
 		for i := 0; i < c.n; i++ {
